@@ -18,14 +18,16 @@ if [ -f $S/demo.diff ]; then
 else
   demo=$(ls $S/seeded_*_demo.rs | head -1)
   crate=$(grep -o "cargo test -p [a-z_-]*" $S/demo.md | head -1 | awk '{print $4}'); [ -z "$crate" ] && crate=parol
-  cp $demo $WT/crates/$crate/tests/
+  mkdir -p $WT/crates/$crate/tests; cp $demo $WT/crates/$crate/tests/
   run="cargo test -p $crate --test $(basename $demo .rs) --offline"
 fi
+if grep -q "cfg parol_verif" $S/demo.md; then export RUSTFLAGS="--cfg parol_verif"; run="$run --target-dir target/verif_demo"; fi
 echo "== demo WITHOUT change: $run" >> $L
 $run >> $L 2>&1; echo "rc_without=$?" >> $L
 git apply $S/patch.diff >> $L 2>&1 || { echo "APPLY FAILED" >> $L; exit 1; }
 echo "== demo WITH change" >> $L
 $run >> $L 2>&1; echo "rc_with=$?" >> $L
+unset RUSTFLAGS
 # suite with the change only (demo removed)
 git stash -q -u 2>/dev/null; git checkout -q -- . ; git clean -qfd crates; git stash drop -q 2>/dev/null
 git apply $S/patch.diff
